@@ -195,7 +195,7 @@ theorem parseInstant_implies_parseRfc3339' {e : Bytes} {u : Int} (h : PostPolicy
         have htime := parseRfc3339_shape y0 y1 y2 y3 m0 m1 d0 d1 84 h0 h1 mi0 mi1 s0 s1 rest n hy0 hy1 hy2 hy3 hm0 hm1
           hd0 hd1 hh0 hh1 hmi0 hmi1 hs0 hs1 hv.2 hn
         rw [if_pos hvf] at htime
-        -- the year check of 62f4e8c: a UTC text of the years 0000 … 9999 denotes an instant of those years
+        -- the year check of b7ef08a: a UTC text of the years 0000 … 9999 denotes an instant of those years
         have hrange := localSeconds_range_year0 _ _ _ _ _ _ (Int.natCast_nonneg _) hvf
         rw [parseRfc3339_of_time htime, if_pos (by simpa only [Int.sub_zero] using hrange)]
         refine ⟨_, rfl, ?_, rfl⟩
